@@ -96,7 +96,7 @@ class Patched:
 
         for obj, name, fn in ((cls, "mkdir", mkdir), (cls, "exists", exists), (cls, "is_dir", is_dir),
                               (os, "mkdir", os_mkdir), (os, "makedirs", os_makedirs),
-                              (os.path, "exists", os_exists), (os.path, "isdir", os_exists),
+                              (os.path, "exists", os_exists), (os.path, "isdir", os_exists), (os.path, "lexists", os_exists),
                               (shutil, "rmtree", rmtree), (os, "rmdir", rmtree)):
             self.saved[(obj, name)] = getattr(obj, name)
             setattr(obj, name, fn)
@@ -282,7 +282,7 @@ def run(ck: Check):
             ck.mismatch(c.split()[0], c, m, i)
     return ck.finish(level="proof", rule=RULE, assumptions=[
         "mkdir(2) is atomic and fails with EEXIST for an existing name of any kind (OS behaviour, assumed)",
-        "the stub layer intercepts pathlib.Path.mkdir/exists/is_dir, os.mkdir/makedirs/rmdir, os.path.exists/isdir, shutil.rmtree"])
+        "the stub layer intercepts pathlib.Path.mkdir/exists/is_dir, os.mkdir/makedirs/rmdir, os.path.exists/lexists/isdir, shutil.rmtree"])
 
 
 CHILD = r"""
